@@ -152,5 +152,10 @@ def run(repo: Repo, tier: str) -> Report:
     r_truthy(rep, repo, "WhittakerSmoother", "whits", ["nodata"], "0 is a legitimate nodata value (it is the one the test-suite uses); a truth test silently replaces or drops it")
     from ..rules import r_stateless
     r_stateless(rep, repo, [('WhittakerSmoother', 'whits')])
+    from ..rules import input_writes
+    for kn_ in ("ws2dgu", "ws2dpgu"):
+        iw_ = input_writes(kernels[kn_])
+        rep.ob("R-READONLY", kernels[kn_].file, kn_, "the smoother never stores into its input series (a second call on the same array smooths a different series)", not iw_,
+               f"`{norm_stmt(iw_[0])}` stores into the input" if iw_ else "", iw_[0] if iw_ else f"{kn_}: stores into inputs")
     rep.floor("C03 obligations", len(rep.obls), 25)
     return rep
